@@ -81,10 +81,44 @@ def centre_status(cm, tol):
     return UND
 
 
-def cap_table(xs, cms, pts_ld, band, centre_tol, exact=()):
+def exact_ties(x, cm, pts):
+    """Points lying EXACTLY on the bounding circle of a cap: 1 - x.p == |cm| in real arithmetic on the stored doubles.
+
+    pts: (n,3) float64 Cartesian.  A point qualifies only if, in addition, every double evaluation of x.p is exact
+    whatever the summation order or fused multiply-add: at most one of the three products is non-zero and that
+    product is representable (axis-aligned caps with a point component equal to 1 - |cm|, caps with a zero
+    component and the point on that axis, the null cap at its axis-aligned centre ...).  Then 1 - |cm| is
+    representable too and equals the computed dot product bit for bit, so the comparison is well defined in double
+    and the property's "<=" (cm >= 0: the circle belongs to the cap) can be asserted.
+    Rational arithmetic (fractions.Fraction) on the binary values; no tolerance.
+    """
+    from fractions import Fraction
+    x = [float(v) for v in np.asarray(x, dtype=np.float64)]
+    a = abs(float(cm))
+    pts = np.asarray(pts, dtype=np.float64)
+    out = np.zeros(len(pts), dtype=bool)
+    cand = np.abs(1.0 - pts @ np.array(x) - a) < 1e-14
+    fa = Fraction(a)
+    for j in np.nonzero(cand)[0]:
+        prods = [Fraction(x[i]) * Fraction(float(pts[j, i])) for i in range(3)]
+        nz = [q for q in prods if q != 0]
+        if len(nz) > 1:
+            continue
+        dot = nz[0] if nz else Fraction(0)
+        if nz and Fraction(float(dot)) != dot:
+            continue
+        out[j] = (1 - dot) == fa
+    return out
+
+
+def cap_table(xs, cms, pts_ld, band, centre_tol, exact=(), ties_pts=None):
     """Per-cap statuses of every point, evaluated once: list of (status array, |d - |cm|| as float64).
 
     exact: iterable of (point_index, cap_index): the point is a bit-exact copy of that cap's centre.
+    ties_pts: the float64 Cartesian points; if given, points exactly on the bounding circle (exact_ties) of a cap
+    with cm >= 0 are decided IN ("1 - x.p <= cm"); on the circle of a complement cap (cm < 0) the property says
+    OUT (the circle belongs to the cap, not to its complement) - left UND here and only reported by the check,
+    because the unchanged code gives the circle to the complement as well.  Third tuple entry: the tie mask.
     """
     ex = {}
     for j, k in exact:
@@ -94,7 +128,12 @@ def cap_table(xs, cms, pts_ld, band, centre_tol, exact=()):
         st, d = cap_status(xs[k], cms[k], pts_ld, band)
         for j in ex.get(k, ()):
             st[j] = centre_status(float(cms[k]), centre_tol)
-        table.append((st, np.abs(d - abs(LD(cms[k]))).astype(np.float64)))
+        ties = np.zeros(len(st), dtype=bool)
+        if ties_pts is not None:
+            ties = exact_ties(xs[k], cms[k], ties_pts)
+            if float(cms[k]) >= 0:
+                st[ties] = IN
+        table.append((st, np.abs(d - abs(LD(cms[k]))).astype(np.float64), ties))
     return table
 
 
@@ -108,7 +147,7 @@ def combine_caps(table, use, ncaps, npts):
     for k in range(nuse):
         if not (int(use) >> k) & 1:
             continue
-        st, dist = table[k]
+        st, dist = table[k][0], table[k][1]
         any_out |= st == OUT
         any_und |= st == UND
         near = np.minimum(near, dist)
